@@ -1,1 +1,1 @@
-
+CONSTANT Full = FALSE
